@@ -25,6 +25,15 @@ var Root = func() string {
 	return "/verif"
 }()
 
+// evRoot: where evidence/ is written (VERIF_EVIDENCE_ROOT redirects it for side runs such as
+// tools/tryseed.sh, so that they do not overwrite the evidence of the tree's own runs).
+var evRoot = func() string {
+	if r := os.Getenv("VERIF_EVIDENCE_ROOT"); r != "" {
+		return r
+	}
+	return Root
+}()
+
 type finding struct {
 	Property string `json:"property"`
 	Key      string `json:"key"`
@@ -291,9 +300,9 @@ func (r *Run) Finish() {
 		"coverage": cov, "assumptions": r.assumptions, "wall_s": wall, "violations": len(r.viol),
 	}
 	if r.ReplayIn == "" {
-		os.MkdirAll(filepath.Join(Root, "evidence"), 0o755)
+		os.MkdirAll(filepath.Join(evRoot, "evidence"), 0o755)
 		b, _ := json.MarshalIndent(ev, "", " ")
-		p := filepath.Join(Root, "evidence", r.ID+".json")
+		p := filepath.Join(evRoot, "evidence", r.ID+".json")
 		if err := os.WriteFile(p+".tmp", append(b, '\n'), 0o644); err != nil {
 			fmt.Fprintf(os.Stderr, "evidence: %v\n", err)
 			os.Exit(2)
@@ -314,7 +323,7 @@ func (r *Run) Finish() {
 	if len(r.viol) == 0 {
 		os.Exit(0)
 	}
-	dir := filepath.Join(Root, "evidence", "replays", r.ID)
+	dir := filepath.Join(evRoot, "evidence", "replays", r.ID)
 	if r.ReplayIn == "" {
 		os.RemoveAll(dir)
 		os.MkdirAll(dir, 0o755)
